@@ -122,6 +122,25 @@ class PklIO:
 BOUND = {"on": False}
 
 
+# What each FileSet object was configured with, kept by the harness (the oracle never reads typhon's own
+# read_args / write_args / post_reader attributes: a leak into them would corrupt model and answer alike)
+CONFIG = {}
+
+
+def configured(fs):
+    return CONFIG.get(id(fs), {"tag": None, "stamp": None, "post": False})
+
+
+def register(fs, like=None, **kw):
+    if like is not None:
+        CONFIG[id(fs)] = dict(configured(like))
+    else:
+        CONFIG[id(fs)] = {"tag": (kw.get("read_args") or {}).get("tag"),
+                          "stamp": (kw.get("write_args") or {}).get("stamp"),
+                          "post": kw.get("post_reader") is not None}
+    return fs
+
+
 def post_reader(file_info, data):
     return dict(data, post="seen")
 
@@ -137,8 +156,8 @@ def make_fs(root, tkey, suffix, name, **kw):
         handler = FileHandler(reader=io.load, writer=io.dump)
     else:
         handler = FileHandler(reader=pkl_read, writer=pkl_write)
-    return FileSet(path=root + "/" + name + "/" + TEMPLATES[tkey] + suffix, name=name,
-                   handler=handler, **kw)
+    return register(FileSet(path=root + "/" + name + "/" + TEMPLATES[tkey] + suffix, name=name,
+                            handler=handler, **kw), **kw)
 
 
 def raw_read(path):
@@ -311,8 +330,8 @@ class History:
         via = rng.choice(["setitem", "write"])
         self.steps.append(["write", fsname, t0.isoformat(), t1.isoformat(), sat, via])
         stored = dict(content)
-        if fs.write_args.get("stamp"):
-            stored["write_stamp"] = fs.write_args["stamp"]
+        if configured(fs)["stamp"]:
+            stored["write_stamp"] = configured(fs)["stamp"]
         self.rec.ev()
         self.rec.count("step.write")
         allowed = {path}
@@ -344,9 +363,9 @@ class History:
             self.rec.violation("operation-exception", self.case(), {"op": "read", "exception": repr(exc)})
             return False
         want = dict(stored)
-        if fs.read_args.get("tag"):
-            want["read_tag"] = fs.read_args["tag"]
-        if fs.post_reader is not None:
+        if configured(fs)["tag"]:
+            want["read_tag"] = configured(fs)["tag"]
+        if configured(fs)["post"]:
             want["post"] = "seen"
         if back != want:
             self.rec.violation("content-differs", self.case(), {"after": "read()", "got": back, "want": want})
@@ -388,13 +407,13 @@ class History:
             content = dict(self.model[p])
             if convert:
                 # read through the source handler (read_args/post_reader), write through the target's
-                if fs.read_args.get("tag"):
-                    content["read_tag"] = fs.read_args["tag"]
-                if fs.post_reader is not None:
+                if configured(fs)["tag"]:
+                    content["read_tag"] = configured(fs)["tag"]
+                if configured(fs)["post"]:
                     content["post"] = "seen"
                 if convert == "fn":
                     content = convert_fn(content)
-                tw = fs.write_args if as_path else {}
+                tw = {"stamp": configured(fs)["stamp"]} if as_path else {}
                 if tw.get("stamp"):
                     content["write_stamp"] = tw["stamp"]
             new_model[q] = content
@@ -423,6 +442,8 @@ class History:
                 return False
         self.model, self.meta = new_model, new_meta
         newfs = res
+        if as_path:
+            register(newfs, like=fs)      # typhon's own copy of the source, re-pointed to the target path
         newfs.worker_type = "thread"
         self.filesets[tname] = (newfs, tkey2, suffix2)
         if tkey2 != tkey or suffix2 != suffix:
@@ -470,9 +491,9 @@ class History:
             _, t0, t1, sat = self.meta[p]
             q = self.name_for(tname, t0, t1, sat)
             content = dict(self.model[p])
-            if fs.read_args.get("tag"):
-                content["read_tag"] = fs.read_args["tag"]
-            if fs.post_reader is not None:
+            if configured(fs)["tag"]:
+                content["read_tag"] = configured(fs)["tag"]
+            if configured(fs)["post"]:
                 content["post"] = "seen"
 
             def holds(path, want):
@@ -546,6 +567,7 @@ class History:
             WRITE_DELAY["s"] = 0.0
         self.model, self.meta = new_model, new_meta
         res.worker_type = "thread"
+        register(res, like=fs)
         self.filesets[tname] = (res, "smd", suffix2)
         self.flags.add("template-change")
         return self.verify("parallel convert")
@@ -599,8 +621,8 @@ class History:
                             if old.get("payload") else "q"
                     fs[t0:t1, {"sat": sat}] = content
                     stored = dict(content)
-                    if fs.write_args.get("stamp"):
-                        stored["write_stamp"] = fs.write_args["stamp"]
+                    if configured(fs)["stamp"]:
+                        stored["write_stamp"] = configured(fs)["stamp"]
                     self.model[p] = stored
         return True
 
@@ -651,10 +673,26 @@ class History:
         self.rec.ev()
         self.rec.count("step.read")
         want = dict(self.model[p])
-        if fs.read_args.get("tag"):
-            want["read_tag"] = fs.read_args["tag"]
-        if fs.post_reader is not None:
+        if configured(fs)["tag"]:
+            want["read_tag"] = configured(fs)["tag"]
+        if configured(fs)["post"]:
             want["post"] = "seen"
+        if rng.random() < 0.5:
+            # call history: one read with per-call arguments (they override the defaults for that call
+            # only), then the plain reads below
+            self.rec.count("step.read_with_per_call_args")
+            try:
+                once = fs.read(fs.get_info(p), tag="ONCE")
+            except Exception as exc:
+                self.rec.violation("operation-exception", self.case(), {"op": "read(tag=...)", "exception": repr(exc),
+                                                                        "trace": traceback.format_exc()[-800:]})
+                return False
+            w1 = dict(want, read_tag="ONCE")
+            if once != w1:
+                self.rec.violation("content-differs", self.case(), {"after": "read(file, tag='ONCE')", "got": once,
+                                                                    "want": w1})
+                return False
+            self.steps[-1].append("per-call-args-first")
         try:
             got = fs.collect(t0, t1 + D(seconds=1), filters={"sat": sat})
         except Exception as exc:
@@ -666,9 +704,9 @@ class History:
         wants = []
         for q in sel:
             w = dict(self.model[q])
-            if fs.read_args.get("tag"):
-                w["read_tag"] = fs.read_args["tag"]
-            if fs.post_reader is not None:
+            if configured(fs)["tag"]:
+                w["read_tag"] = configured(fs)["tag"]
+            if configured(fs)["post"]:
                 w["post"] = "seen"
             wants.append(w)
         if got != wants:
@@ -682,6 +720,7 @@ def run_history(rec, seed, hrng):
     root = scratch_dir("c11")
     os.makedirs(root + "/tmp-compress")
     h = History(rec, hrng, root, seed)
+    CONFIG.clear()
     BOUND["on"] = hrng.random() < 0.3  # user handler built from bound methods in some histories
     try:
         kw = {}
@@ -903,11 +942,72 @@ def format_cases(rec, rng, n, family=None):
         shutil.rmtree(root, ignore_errors=True)
 
 
+def single_file_moves(rec, rng):
+    """A fileset that is one file (path without placeholders): move / copy, plain and converting."""
+    from typhon.files import FileSet, FileHandler
+    root = scratch_dir("c11s")
+    try:
+        for mode in ("move", "copy", "convert", "convert-copy"):
+            d = os.path.join(root, mode)
+            os.makedirs(d)
+            src = os.path.join(d, "one.pkl")
+            content = {"id": 1, "payload": "p" * rng.choice([0, 7, 3000])}
+            with open(src, "wb") as fh:
+                pickle.dump(content, fh)
+            raw = open(src, "rb").read()
+            suffix = rng.choice(["", ".gz", ".xz"]) if mode.startswith("convert") else ""
+            target = os.path.join(d, "sub", "moved.pkl" + suffix)
+            fs = FileSet(path=src, handler=FileHandler(reader=pkl_read, writer=pkl_write),
+                         read_args={"tag": "R"})
+            copy, convert = mode.endswith("copy"), mode.startswith("convert")
+            case = {"kind": "single-file-move", "mode": mode, "suffix": suffix}
+            rec.ev()
+            rec.count("single.moves")
+            try:
+                with warnings.catch_warnings():
+                    warnings.simplefilter("ignore")
+                    fs.move(target, copy=copy, convert=convert)
+            except Exception as exc:
+                rec.violation("operation-exception", case, {"op": "move (single file)", "exception": repr(exc),
+                                                            "trace": traceback.format_exc()[-1000:]})
+                continue
+            problems = []
+            if os.path.exists(src) != copy:
+                problems.append("original %s" % ("removed although copy=True" if copy else "still there"))
+            elif copy and open(src, "rb").read() != raw:
+                problems.append("original changed")
+            if not os.path.exists(target):
+                problems.append("no file at the target name")
+            elif convert:
+                want = dict(content, read_tag="R")      # read through the handler, written through it
+                got = raw_read(target)
+                if got != want:
+                    problems.append("converted content %r, want %r" % (str(got)[:80], str(want)[:80]))
+            elif open(target, "rb").read() != raw:
+                problems.append("plain move/copy changed the bytes (converted although convert is not set?)")
+            left = sorted(os.path.relpath(p, d) for p in listing(d))
+            extra = [p for p in left if p not in (os.path.relpath(target, d),) + (("one.pkl",) if copy else ())]
+            if extra:
+                problems.append("unexpected files %r" % extra[:3])
+            if problems:
+                rec.violation("tree-differs" if "unexpected" in problems[-1] or "original" in problems[0]
+                              else "content-differs", case, {"after": "move of a single-file fileset",
+                                                             "problems": problems})
+            else:
+                rec.nontriv(["single-file-move", mode, suffix], [mode, suffix, len(raw)])
+    finally:
+        shutil.rmtree(root, ignore_errors=True)
+
+
 def run_shard(spec, rec):
     rng = rng_for(spec["seed"], "c11", spec["shard"])
     if spec["kind"] == "formats":
         format_cases(rec, rng, spec["n"], family=["netcdf", "csv"][spec["shard"] % 2])
         return
+    try:
+        single_file_moves(rec, rng_for(spec["seed"], "c11-single", spec["shard"]))
+    except Exception as exc:
+        rec.inconc("harness error: %r %s" % (exc, traceback.format_exc()[-1200:]))
     for i in range(spec["n"]):
         seed = rng.randrange(2 ** 31)
         try:
@@ -921,5 +1021,7 @@ def run_shard(spec, rec):
 def replay(case, rec):
     if case.get("kind") == "history":
         run_history(rec, case["seed"], rng_for(case["seed"], "c11-history"))
+    elif case.get("kind") == "single-file-move":
+        single_file_moves(rec, rng_for(0, "replay"))
     elif case.get("kind") == "format":
         format_cases(rec, rng_for(case["seed"], "replay"), 1)
